@@ -103,6 +103,14 @@ def arrays_prog(rnd, n, W):
             d = decl(arr(el, True), name, ('arr', vals), True)
             (glob if rnd.random() < 0.5 else body).append(d)
             body += [ex(call('dump', V(name))), write(ln(name)), write(C('\n'))]
+    # constant bool arrays whose packed bytes are equal but whose lengths differ
+    base = [rnd.random() < 0.5 for _ in range(rnd.randrange(1, 7))] + [True]
+    for extra in (0, 1, 2 + rnd.randrange(0, max(1, 7 - len(base) % 8))):
+        k += 1
+        name = f'tb{k}'
+        d = decl(arr('bool', True), name, ('arr', tuple(B(b) for b in base) + tuple(B(False) for _ in range(extra))), True)
+        (glob if rnd.random() < 0.5 else body).append(d)
+        body += [ex(call('dump', V(name))), write(ln(name)), write(C('\n'))]
     return prog(glob, dumps + [func('empty', '@is_you', [], *body)])
 
 
